@@ -1309,6 +1309,29 @@ def c18_u5(ctx):
                 continue
             e = eb.operand(st["discr"])
             got = _closure_guard_form(ctx, f, e)
+            if got is None and simp(e)[0] == "place" and re.match(r"^\w+$", simp(e)[1]):
+                # a boolean variable: every definition is the closure test itself, `false`, or
+                # `true` assigned only where the mode is known to be acknowledged
+                forms = []
+                for vn, l, pj in f.var_places:
+                    if vn != simp(e)[1] or pj:
+                        continue
+                    for dd in f.defs(l):
+                        if dd[0] == "assign" and dd[3]["k"] == "use" and dd[3]["op"].get("k") == "const":
+                            if dd[3]["op"].get("val") in (0, False):
+                                continue
+                            ws = fl.at_stmt(dd[1], dd[2])
+                            if ws and all(val_in(dict(w), "self.config.transmission_mode", {"Acknowledged"}) for w in ws):
+                                continue
+                            forms.append(("bad", "flag %s is set true outside the acknowledged mode" % vn))
+                        elif dd[0] in ("assign", "call"):
+                            g2 = _closure_guard_form(ctx, f, eb._def_expr(dd, 0, (l,)))
+                            forms.append(g2 if g2 is not None else ("bad", "flag %s is also assigned %s" % (vn, expr_str(eb._def_expr(dd, 0, (l,)))[:80])))
+                        else:
+                            forms.append(("bad", "flag %s has an opaque definition" % vn))
+                if forms:
+                    bad_ = [x for x in forms if x[0] == "bad"]
+                    got = bad_[0] if bad_ else ("ok", "flag: " + forms[0][1])
             if got is None:
                 continue
             # polarity: the call must lie on the true edge
